@@ -183,6 +183,9 @@ Definition set_bases (st : state) (c : Z) (bs : list Z) : state :=
 
 Definition set_flag (st : state) : state := mkState (classes st) (insts st) true.
 
+Definition upd_cls (st : state) (c : Z) (f : cls -> cls) : state :=
+  match getc st c with Some k => setc st c (f k) | None => st end.
+
 (* metatype.mro(cls): type.mro over the cached linearisations of the bases;
    with the replacement installed, its fall-back when C3 fails *)
 Definition linearize_cached (st : state) (c : Z) (bs : list Z) : option (list Z) :=
@@ -196,6 +199,9 @@ Definition linearize_cached (st : state) (c : Z) (bs : list Z) : option (list Z)
   end.
 
 (* mro_hierarchy: the class, then each registered subclass, depth first *)
+Definition obind {A B} (o : option A) (f : A -> option B) : option B :=
+  match o with Some a => f a | None => None end.
+
 Fixpoint hier (fuel : nat) (st : state) (c : Z) : option state :=
   match fuel with
   | O => None
@@ -206,11 +212,8 @@ Fixpoint hier (fuel : nat) (st : state) (c : Z) : option state :=
       match linearize_cached st c (c_bases k) with
       | None => None
       | Some l =>
-        (fix go (subs : list Z) (s : state) : option state :=
-           match subs with
-           | [] => Some s
-           | d :: r => match hier f s d with Some s' => go r s' | None => None end
-           end) (c_subs k) (setc st c (with_mro l k))
+        fold_left (fun acc d => obind acc (fun s => hier f s d)) (c_subs k)
+                  (Some (setc st c (with_mro l k)))
       end
     end
   end.
@@ -282,9 +285,6 @@ Inductive op : Type :=
 Inductive outcome : Type :=
 | ROk (payload : list Z)
 | RErr (e : mexn).
-
-Definition upd_cls (st : state) (c : Z) (f : cls -> cls) : state :=
-  match getc st c with Some k => setc st c (f k) | None => st end.
 
 
 Fixpoint remove_feat (n : name) (fs : list feat) : option (list feat) :=
@@ -441,7 +441,7 @@ Definition enc_gres (g : gres) : list Z :=
 Definition new_class (st : state) (supers : list Z) : state * outcome :=
   let ss := zdedup supers in
   let c := Z.of_nat (S (nclasses st)) in
-  let st1 := mkState (classes st ++ [mkCls [] [] ss [] []]) (insts st) (flag st) in
+  let st1 := mkState (classes st ++ [mkCls [] [] ss [] [] [c] []]) (insts st) (flag st) in
   match update_supertypes st1 c with
   | (st2, None) => (st2, ROk [c])
   | (st2, Some e) => (st2, RErr e)
@@ -690,8 +690,24 @@ Definition dump_classes (st : state) : list Z :=
   flat_map (fun c => (Z.of_nat (length (bases_fn st c)) :: bases_fn st c) ++ enc_mro (mro st c))
            (zseq 1 (nclasses st)).
 
+Fixpoint list_eqb (a b : list Z) : bool :=
+  match a, b with
+  | [], [] => true
+  | x :: a', y :: b' => (x =? y) && list_eqb a' b'
+  | _, _ => false
+  end.
+
+(* every cached linearisation is what a linearisation from scratch gives
+   (only claimed while the replacement is not installed) *)
+Definition consistentb (st : state) : bool :=
+  flag st ||
+  forallb (fun c => match mro st c, mro_spec st c with
+                    | Some a, Some b => list_eqb a b
+                    | _, _ => false
+                    end) (zseq 1 (nclasses st)).
+
 (* input : initial flag ; nops ; ops.. ; nnames ; names..
-   output: per-op records ; dump of instances ; dump of classes ; final flag *)
+   output: per-op records ; dump of instances ; dump of classes ; final flag ; cache consistent *)
 Definition run_metaedit (t : list Z) : list Z :=
   match t with
   | fl :: k :: r =>
@@ -701,7 +717,7 @@ Definition run_metaedit (t : list Z) : list Z :=
       let '(names, _) := dec_names (Z.to_nat nn) r2 in
       let '(st1, out1) := run_steps os (empty_state (fl =? 1)) in
       let '(st2, out2) := dump_insts st1 (zseq 0 (length (insts st1))) names in
-      out1 ++ out2 ++ dump_classes st2 ++ [if flag st2 then 1 else 0]
+      out1 ++ out2 ++ dump_classes st2 ++ [if flag st2 then 1 else 0; if consistentb st2 then 1 else 0]
     | [] => []
     end
   | _ => []
